@@ -664,6 +664,14 @@ func (pids *pids) create(txidp *string, txTimeout int32) (int64, int16) {
 	// to avoid FNV-64 hash collisions between different txids.
 	if txidp != nil {
 		if pidinf, ok := pids.byTxid[*txidp]; ok {
+			// A new incarnation fences the old one: like a real
+			// coordinator, abort whatever transaction the old
+			// incarnation left open before bumping the epoch, or
+			// its records would ride along with the new
+			// incarnation's first commit.
+			if pidinf.inTx {
+				pidinf.endTx(false)
+			}
 			pidinf = pids.bumpEpoch(pidinf)
 			pidinf.lastActive = time.Now()
 			return pidinf.id, pidinf.epoch
